@@ -292,4 +292,40 @@ mod h {
         assert!(px == xs[1] && py == ys[2]);
         std::mem::forget(it);
     }
+
+    // ------------------------------------------------------------------ C19: fast path vs general path under CBMC's memory model
+    fn nofmt(_a: std::fmt::Arguments<'_>) -> String {
+        String::new()
+    }
+    macro_rules! fastpath {
+        ($name:ident, $t:ty, $mk:expr) => {
+            /// fast path (Ix1 query) and general path (the same query as IxDyn of rank 1) of interp_array_into on
+            /// the real code: CBMC checks every pointer operation of `cast_unchecked` (ptr::read through the
+            /// transmuted pointer) and of the accesses that follow; concrete 2-point data, one symbolic choice
+            /// between two query vectors (fully symbolic float data does not finish, DESIGN section 4)
+            #[kani::proof]
+            #[kani::unwind(18)]
+            #[kani::stub(alloc::fmt::format, nofmt)]
+            fn $name() {
+                let xs: [$t; 2] = [($mk)(1), ($mk)(3)];
+                let ys: [$t; 2] = [($mk)(2), ($mk)(7)];
+                let sel: bool = kani::any();
+                let q: [$t; 2] = if sel { [($mk)(2), ($mk)(4)] } else { [($mk)(0), ($mk)(3)] };
+                let it = Interp1D::new_unchecked(ArrayView1::from(&xs[..]), ArrayView1::from(&ys[..]), Linear::new().extrapolate(true));
+                let mut b1 = [($mk)(0); 2];
+                let mut b2 = [($mk)(0); 2];
+                let r1 = it.interp_array_into(&ArrayView1::from(&q[..]), ArrayViewMut1::from(&mut b1[..]));
+                let qd = ArrayView1::from(&q[..]).into_dyn();
+                let r2 = it.interp_array_into(&qd, ArrayViewMut1::from(&mut b2[..]).into_dyn());
+                assert!(r1.is_ok() && r2.is_ok());
+                assert!(b1[0] == b2[0] && b1[1] == b2[1], "fast path and general path agree");
+                kani::cover!(sel);
+                kani::cover!(!sel);
+                std::mem::forget(r1);
+                std::mem::forget(r2);
+            }
+        };
+    }
+    fastpath!(c19_fastpath_f64, f64, |v: i32| v as f64);
+    fastpath!(c19_fastpath_i32, i32, |v: i32| v);
 }
